@@ -109,6 +109,15 @@ CHECKS["C05"] = dict(
           "check (implementation output verified against the model's equation inside Coq) and oracles (partial)."),
     design="6/C05", technique="Coq proof parametric in the solver oracle + in-Coq certificate check of the implementation's solution")
 
+CHECKS["C07"] = dict(
+    text=("Theorems over R: any solution of (B + tA) u = b conserves total heat (sum B u = sum b) whenever A is symmetric and kills "
+          "constants (proved for the triangle and tetra stiffness in C01); the indicator sums to the number of distinct seeds; for "
+          "non-degenerate triangle meshes and t >= 0 the system is positive definite, hence its solution unique (additivity); kernel "
+          "symmetric in (p,q) and diagonal = kernel at p=q. The solver is an oracle: the implementation's u is verified inside Coq "
+          "against the model's system (lumped mass, t = m*avg_edge^2, indicator). Rigid/scale laws, aniso and numpy broadcasting of "
+          "kernel/diagonal are covered by correspondence + oracles (partial)."),
+    design="6/C07", technique="Coq proof over R + in-Coq certificate check of the implementation's solution + formula-level kernel model")
+
 NOT_YET = {}
 
 
